@@ -330,6 +330,17 @@ func diffIn(path string, a, b *Node, defaults map[string]string, out *[]string, 
 		return
 	}
 	a, b = mergeExtra(a), mergeExtra(b)
+	a, b = dropDupKeys(a, b)
+	if a.T == "num" && b.T == "num" && a.V != b.V && !strings.Contains(path, "Params.") {
+		// one unit in the last place, in a body: the JSON number reader of the jx dependency (its fast path for
+		// numbers with a fraction) is inexact for some 16-17 digit texts; reported as its own class
+		fa, err1 := strconv.ParseFloat(a.V, 64)
+		fb, err2 := strconv.ParseFloat(b.V, 64)
+		if err1 == nil && err2 == nil && math.Nextafter(fa, fb) == fb {
+			*out = append(*out, numULP+fmt.Sprintf("%s: supplied %s, arrived %s", path, a.V, b.V))
+			return
+		}
+	}
 	if variant != "" && a.T == "str" && b.T == "str" && a.V != b.V && defaults != nil {
 		// A text member directly inside a variant of a sum: the discriminator property is written by ogen from
 		// the variant, whatever the member holds. Tolerated when it arrives as the same text every time.
@@ -452,6 +463,44 @@ func mergeExtra(n *Node) *Node {
 	m.N = append(m.N, "ExtraMembers")
 	m.C = append(m.C, merged)
 	return m
+}
+
+// numULP marks a number that arrived one unit in the last place away.
+const numULP = "NUMULP "
+
+// dropDupKeys: when the supplied additional and pattern maps of one struct hold the same key twice, the wire
+// carries the member twice and which one wins is not the property's business: such keys are left out on both sides.
+func dropDupKeys(a, b *Node) (*Node, *Node) {
+	if !strings.HasPrefix(a.T, "struct:") || len(a.N) == 0 || a.N[len(a.N)-1] != "ExtraMembers" {
+		return a, b
+	}
+	am := a.C[len(a.C)-1]
+	dup := map[string]bool{}
+	for i := 1; i < len(am.N); i++ {
+		if am.N[i] == am.N[i-1] {
+			dup[am.N[i]] = true
+		}
+	}
+	if len(dup) == 0 {
+		return a, b
+	}
+	strip := func(n *Node) *Node {
+		if !strings.HasPrefix(n.T, "struct:") || len(n.N) == 0 || n.N[len(n.N)-1] != "ExtraMembers" {
+			return n
+		}
+		m := n.C[len(n.C)-1]
+		nm := &Node{T: m.T}
+		for i, k := range m.N {
+			if !dup[k] {
+				nm.N = append(nm.N, k)
+				nm.C = append(nm.C, m.C[i])
+			}
+		}
+		cp := *n
+		cp.C = append(append([]*Node{}, n.C[:len(n.C)-1]...), nm)
+		return &cp
+	}
+	return strip(a), strip(b)
 }
 
 // hollow: a struct, map or list in which nothing is set.
@@ -1254,6 +1303,10 @@ func (r *CallRecord) sealTyped(pkg string) {
 				add(fmt.Sprintf("request/map members did not arrive (delivery %d): %s", i, d[len(mapDropped):]))
 				continue
 			}
+			if strings.HasPrefix(d, numULP) {
+				add(fmt.Sprintf("request/number arrived one unit in the last place away (delivery %d): %s", i, d[len(numULP):]))
+				continue
+			}
 			add(fmt.Sprintf("request/handler received a different value (delivery %d): %s", i, d))
 		}
 		var ss []string
@@ -1315,6 +1368,10 @@ func (r *CallRecord) sealTyped(pkg string) {
 				}
 				if strings.HasPrefix(d, mapDropped) {
 					add("response/map members did not arrive: " + d[len(mapDropped):])
+					continue
+				}
+				if strings.HasPrefix(d, numULP) {
+					add("response/number arrived one unit in the last place away: " + d[len(numULP):])
 					continue
 				}
 				add("response/caller received a different value: " + d)
